@@ -283,24 +283,7 @@ def run(rep, info, model, tier, seed):
 
 
 def replay(body):
-    sc = fam.unjson_sc(body["scenario"])
-    if sc.get("kind"):
+    if (body["scenario"] or {}).get("kind"):
         print("in-process family: re-run check.py C06 quick")
         return 2
-    r = simnet.run_impl(sc)
-    tr = simnet.canon_trace(r.trace)
-    print("events:", fam.event_codes(tr))
-    res = None
-    try:
-        # the intent metadata stored with the scenario lets the family's own oracle judge the re-run
-        orc = no_neg_oracle if ("_sends" in sc and "_params" not in sc) else oracle
-        if "_params" in sc:
-            sc["_params"] = tuple(sc["_params"])
-        res = orc(sc, tr, dict(sock_closed=r.sock.closed if r.sock else None, escaped=r.escaped))
-    except (KeyError, TypeError):
-        res = None
-    if res is None:
-        print("REPLAY: see events (expected: no protocol_error (13); all messages delivered)")
-        return 1 if 13 in fam.event_codes(r.trace) else 0
-    print("REPLAY:", ("VIOLATION reproduced: %s" % res[0]) if res else "property holds on this input")
-    return 1 if res else 0
+    return fam.replay_generic(body, {"C06:histories-x-256-configurations": oracle, "C06:no-negotiation": no_neg_oracle, "C06:corrupted": oracle})
